@@ -409,7 +409,7 @@ def _via_quic(data, exps, rbs):
         ended = None
         for _ in range(len(data) + 5):
             try:
-                g = await asyncio.wait_for(t.next_frame_generator(), 1)
+                g = await asyncio.wait_for(t.next_frame_generator(), 5)
             except RSocketTransportError:
                 ended = 'error'
                 break
